@@ -220,7 +220,7 @@ Section SafeBody.
     intros Hb. induction l as [|[ap at'] l IH]; intros k HF; cbn [choice_pick].
     - apply safe_err.
     - inversion HF as [|? ? Ha Hl]; subst. cbn [snd] in Ha.
-      destruct (tag_matches ap tn).
+      destruct (starts at' ap tn).
       + apply safe_bind; [apply Ha, Hb | intros; apply safe_ok].
       + apply IH, Hl.
   Qed.
@@ -245,7 +245,7 @@ Section SafeBody.
     - inversion HF as [|? ? Ha Hl]; subst. cbn [snd] in Ha.
       destruct (Nat.ltb j _); [apply IH, Hl|].
       destruct (p_open p); [apply safe_err|].
-      destruct (tag_matches fp tn).
+      destruct (starts ft fp tn).
       + apply safe_bind; [apply Ha, Hb | intros; apply Hk].
       + apply IH, Hl.
   Qed.
@@ -360,11 +360,11 @@ Lemma dec_empty t p : match t with TPtr _ => True | _ => dec t p [] = Err end.
 Proof. destruct t; try exact I; reflexivity. Qed.
 
 Lemma dec_zero_length_int p : p_tag p = None -> dec TInt p [2; 0] = Err.
-Proof. intros H. cbn. rewrite H. reflexivity. Qed.
+Proof. intros H. destruct p as [o op tg ex st sty]. cbn [p_tag] in H. subst tg. destruct ex; reflexivity. Qed.
 Lemma dec_zero_length_bool p : p_tag p = None -> dec TBool p [1; 0] = Err.
-Proof. intros H. cbn. rewrite H. reflexivity. Qed.
+Proof. intros H. destruct p as [o op tg ex st sty]. cbn [p_tag] in H. subst tg. destruct ex; reflexivity. Qed.
 Lemma dec_zero_length_bits p : p_tag p = None -> dec TBits p [3; 0] = Err.
-Proof. intros H. cbn. rewrite H. reflexivity. Qed.
+Proof. intros H. destruct p as [o op tg ex st sty]. cbn [p_tag] in H. subst tg. destruct ex; reflexivity. Qed.
 
 (* a length that runs past the end of the data *)
 Lemma dec_overlong t p b0 len content :
